@@ -14,7 +14,7 @@ def one(binary, case):
         # persistent-query acceleration (production default) is on in every third run: rotations then write agile trees and
         # queries are answered from persisted match results where they exist
         dr.ok("init", dir=d, pqs=bool(case.get("pqs")), **({"logfile": "%s/log-%s.txt" % (case["diag"], case["seed"])} if case.get("diag") else {}))
-        return dr.ok("vis_stress", indexes=case["indexes"], ms=case["ms"], seed=case["seed"], queriers=case["queriers"], diag=case.get("diag", ""), new_cols=case.get("new_cols", False), timeout=180)
+        return dr.ok("vis_stress", indexes=case["indexes"], ms=case["ms"], seed=case["seed"], queriers=case["queriers"], diag=case.get("diag", ""), new_cols=case.get("new_cols", False), new_cols_n=case.get("new_cols_n", 1), timeout=180)
     finally:
         if dr is not None:
             dr.quit()
@@ -69,6 +69,11 @@ def run(chk, binary):
         # built from one pool of builders, and persisted match results are back-filled by a background loop
         cases.append({"idx": i, "procs": [1, 2, 4, 16][i % 4], "indexes": 2 if pqs else 1 + i % 2, "ms": (4000 if pqs else 2500) if quick else 6000,
                       "seed": chk.seed * 1000 + i, "queriers": 2 + i % 3, "new_cols": i % 3 == 2, "pqs": i % 3 == 1})
+    # wide late columns: every event brings 12 column names the open segment has not seen (each flush rewrites the
+    # segment's column tables while 6 searches copy them)
+    for j in range(2 if quick else 6):
+        cases.append({"idx": n + j, "procs": [4, 16][j % 2], "indexes": 1, "ms": 2500 if quick else 5000, "seed": chk.seed * 1000 + 500 + j,
+                      "queriers": 6, "new_cols": True, "new_cols_n": 12, "pqs": False})
 
     def f(c):
         try:
